@@ -5,6 +5,9 @@
 //! Case lines (the same text is the request to the Lean driver, `swt`/`swp`/`timerd` mapped to `sw`/`timer`):
 //!   `sw  <op>…`  ops `a<ns>` advance | `sb` start borrowed, `pb` stop, `db` drop, `xb` discard, `wb` overwrite
 //!                | `so<k>` start owned into slot k, `po<k> do<k> xo<k> wo<k>` | `c` clear
+//!                | `ub` / `uo<k>`: the guard is dropped by a panic unwinding out of a `catch_unwind` scope that
+//!                owns it (same thread); `vo<k>`: the owned guard is moved to a spawned thread that panics
+//!                while owning it — a guard dropped by unwinding is a dropped guard (its span counts)
 //!   `swt <op>…`  same, every owned guard is finished on a freshly spawned thread
 //!   `swp <op>…`  same, every maximal run of consecutive stop/drop/discard operations on owned guards is
 //!                executed at once on parallel threads released by a barrier (no observation inside a run;
@@ -68,6 +71,12 @@ enum Op {
     Xo(u8),
     Wo(u8),
     C,
+    /// the borrowed guard is dropped by a panic unwinding out of a `catch_unwind` closure that owns it
+    Ub,
+    /// the owned guard is dropped by a panic unwinding out of a `catch_unwind` closure (same thread)
+    Uo(u8),
+    /// the owned guard is moved to a spawned thread that panics while owning it
+    Vo(u8),
 }
 
 impl Op {
@@ -85,6 +94,9 @@ impl Op {
             Op::Xo(k) => format!("xo{k}"),
             Op::Wo(k) => format!("wo{k}"),
             Op::C => "c".into(),
+            Op::Ub => "ub".into(),
+            Op::Uo(k) => format!("uo{k}"),
+            Op::Vo(k) => format!("vo{k}"),
         }
     }
     fn dec(s: &str) -> Option<Op> {
@@ -95,6 +107,7 @@ impl Op {
             "xb" => Op::Xb,
             "wb" => Op::Wb,
             "c" => Op::C,
+            "ub" => Op::Ub,
             _ => {
                 if let Some(r) = s.strip_prefix('a') {
                     Op::Adv(r.parse().ok()?)
@@ -110,6 +123,8 @@ impl Op {
                         "do" => Op::Do(k),
                         "xo" => Op::Xo(k),
                         "wo" => Op::Wo(k),
+                        "uo" => Op::Uo(k),
+                        "vo" => Op::Vo(k),
                         _ => return None,
                     }
                 }
@@ -287,11 +302,11 @@ fn parallel_groups(ops: &[Op]) -> Vec<(usize, usize)> {
                 live[k as usize] = false;
                 i += 1;
             }
-            Op::Po(k) | Op::Do(k) | Op::Xo(k) if live[k as usize] => {
+            Op::Po(k) | Op::Do(k) | Op::Xo(k) | Op::Uo(k) | Op::Vo(k) if live[k as usize] => {
                 let start = i;
                 while i < ops.len() {
                     match ops[i] {
-                        Op::Po(k) | Op::Do(k) | Op::Xo(k) if live[k as usize] => {
+                        Op::Po(k) | Op::Do(k) | Op::Xo(k) | Op::Uo(k) | Op::Vo(k) if live[k as usize] => {
                             live[k as usize] = false;
                             i += 1;
                         }
@@ -350,7 +365,7 @@ impl SwCtx<'_> {
             let mut handles = vec![];
             for idx in start..start + len {
                 let op = self.ops[idx];
-                let (Op::Po(k) | Op::Do(k) | Op::Xo(k)) = op else { return Some(OwnedRes::Inexpressible) };
+                let (Op::Po(k) | Op::Do(k) | Op::Xo(k) | Op::Uo(k) | Op::Vo(k)) = op else { return Some(OwnedRes::Inexpressible) };
                 let Some(g) = self.owned.get_mut(k as usize).and_then(|s| s.take()) else { return Some(OwnedRes::Inexpressible) };
                 let b = barrier.clone();
                 handles.push(std::thread::spawn(move || {
@@ -361,6 +376,14 @@ impl SwCtx<'_> {
                             drop(g);
                             "-".to_string()
                         }
+                        Op::Uo(_) => {
+                            unwind_with(g);
+                            "-".to_string()
+                        }
+                        Op::Vo(_) => {
+                            let _owned_while_panicking = g;
+                            panic!("{CONTAINED}");
+                        }
                         _ => {
                             g.discard();
                             "-".to_string()
@@ -369,9 +392,11 @@ impl SwCtx<'_> {
                 }));
             }
             let mut rets: Vec<String> = vec![];
-            for h in handles {
+            for (h, idx) in handles.into_iter().zip(start..) {
                 match h.join() {
                     Ok(r) => rets.push(r),
+                    // the thread of a `vo` operation is meant to die of its own panic
+                    Err(e) if matches!(self.ops[idx], Op::Vo(_)) && is_contained(&e) => rets.push("-".into()),
                     Err(e) => std::panic::resume_unwind(e),
                 }
             }
@@ -425,8 +450,51 @@ impl SwCtx<'_> {
                 }
                 None => OwnedRes::Inexpressible,
             },
+            Op::Uo(k) => match take(k) {
+                Some(g) => {
+                    fin(threaded, g, unwind_with);
+                    OwnedRes::Done("-".into())
+                }
+                None => OwnedRes::Inexpressible,
+            },
+            Op::Vo(k) => match take(k) {
+                Some(g) => {
+                    let r = std::thread::spawn(move || {
+                        let _owned_while_panicking = g;
+                        panic!("{CONTAINED}");
+                    })
+                    .join();
+                    match r {
+                        Err(e) if is_contained(&e) => OwnedRes::Done("-".into()),
+                        Err(e) => std::panic::resume_unwind(e),
+                        Ok(()) => OwnedRes::Done("thread-did-not-panic".into()),
+                    }
+                }
+                None => OwnedRes::Inexpressible,
+            },
             _ => return None,
         })
+    }
+}
+
+const CONTAINED: &str = "contained panic (harness)";
+
+fn is_contained(e: &Box<dyn std::any::Any + Send>) -> bool {
+    e.downcast_ref::<String>().map(|s| s == CONTAINED).unwrap_or(false) || e.downcast_ref::<&str>().map(|s| *s == CONTAINED).unwrap_or(false)
+}
+
+/// Drops `guard` by unwinding: a panic raised inside a `catch_unwind` scope that owns the guard (for a
+/// `TimerGuard` the scope thereby borrows the stopwatch). Any other panic (one raised by the guard's
+/// `Drop` itself) is propagated as an observable.
+fn unwind_with<G>(guard: G) {
+    let r = std::panic::catch_unwind(std::panic::AssertUnwindSafe(move || {
+        let _dropped_by_unwinding = guard;
+        panic!("{CONTAINED}");
+    }));
+    match r {
+        Err(e) if is_contained(&e) => {}
+        Err(e) => std::panic::resume_unwind(e),
+        Ok(()) => unreachable!(),
     }
 }
 
@@ -460,6 +528,10 @@ fn with_borrowed_guard(guard: TimerGuard<'_>, cx: &mut SwCtx<'_>, toks: &mut Vec
             }
             Op::Wb => {
                 guard.overwrite();
+                return GuardEnd::Finished("-".into());
+            }
+            Op::Ub => {
+                unwind_with(guard);
                 return GuardEnd::Finished("-".into());
             }
             // need `&mut stopwatch`, which the guard holds
@@ -502,7 +574,7 @@ fn run_sw(ops: &[Op], mode: Mode) -> Option<String> {
                     GuardEnd::Inexpressible => return None,
                 }
             }
-            Op::Pb | Op::Db | Op::Xb | Op::Wb => return None,
+            Op::Pb | Op::Db | Op::Xb | Op::Wb | Op::Ub => return None,
             Op::So(k) => {
                 let slot = cx.owned.get_mut(k as usize)?;
                 if slot.is_some() {
@@ -874,6 +946,8 @@ struct EnvCx<'x> {
     wall: Vec<u128>,
     adv: Vec<u128>,
     guards: Vec<Option<ThreadLocalTimeSourceGuard>>,
+    /// named guards in the order they were installed (for the clean-up after the case)
+    install_order: Vec<u8>,
     rt_guard: Option<RuntimeTimeSourceGuard>,
     objs: Vec<Obj>,
     toks: Vec<String>,
@@ -1013,11 +1087,13 @@ fn run_env_ops(cx: &mut EnvCx<'_>, depth: usize) -> Result<(), ()> {
                     return Err(());
                 }
                 cx.guards[g as usize] = Some(set_time_source(cx.srcs[s as usize].clone()));
+                cx.install_order.push(g);
                 cx.toks.push("-".into());
             }
             EOp::DropG(g) => {
                 let guard = cx.guards[g as usize].take().ok_or(())?;
                 drop(guard);
+                cx.install_order.retain(|x| *x != g);
                 cx.toks.push("-".into());
             }
             EOp::Begin(s) => {
@@ -1073,46 +1149,94 @@ fn run_env_ops(cx: &mut EnvCx<'_>, depth: usize) -> Result<(), ()> {
     }
 }
 
-/// One `env` case on a thread of its own (thread-local overrides must start empty and may be left
-/// behind by out-of-order drops), inside a tokio runtime of its own (runtime-wide override).
-fn run_env(ops: &[EOp]) -> Option<String> {
-    let ops = ops.to_vec();
-    let r = std::thread::spawn(move || {
-        let rt = tokio::runtime::Builder::new_current_thread().build().expect("runtime");
-        rt.block_on(async {
-            let fakes: Vec<ManuallyAdvancedTimeSource> =
-                (0..N_SRC).map(|j| ManuallyAdvancedTimeSource::at_time(wall_time(((j as u128 + 1) * WALL_BAND) as i128))).collect();
-            let mut cx = EnvCx {
-                ops: &ops,
-                i: 0,
-                srcs: fakes.iter().map(|f| TimeSource::custom(f.clone())).collect(),
-                fakes,
-                wall: (0..N_SRC).map(|j| (j as u128 + 1) * WALL_BAND).collect(),
-                adv: vec![0; N_SRC],
-                guards: (0..N_GUARDS).map(|_| None).collect(),
-                rt_guard: None,
-                objs: vec![],
-                toks: vec![],
-            };
-            let res = catch(|| run_env_ops(&mut cx, 0));
-            match res {
-                Ok(Ok(())) => {
-                    // every object again, after all the installs and drops (OnClose: now)
-                    let n = cx.objs.len();
-                    let ends: Vec<String> = (0..n).map(|i| cx.probe(i)).collect();
-                    cx.toks.push(format!("end:{}", if ends.is_empty() { "-".to_string() } else { ends.join(",") }));
-                    Some(cx.toks.join(" "))
-                }
-                Ok(Err(())) => None,
-                Err(p) => Some(format!("panic:{p}")),
+/// One `env` case on the current thread, inside a tokio runtime of its own (runtime-wide override).
+fn run_env_case(ops: &[EOp]) -> Option<String> {
+    let rt = tokio::runtime::Builder::new_current_thread().build().expect("runtime");
+    rt.block_on(async {
+        let fakes: Vec<ManuallyAdvancedTimeSource> =
+            (0..N_SRC).map(|j| ManuallyAdvancedTimeSource::at_time(wall_time(((j as u128 + 1) * WALL_BAND) as i128))).collect();
+        let mut cx = EnvCx {
+            ops,
+            i: 0,
+            srcs: fakes.iter().map(|f| TimeSource::custom(f.clone())).collect(),
+            fakes,
+            wall: (0..N_SRC).map(|j| (j as u128 + 1) * WALL_BAND).collect(),
+            adv: vec![0; N_SRC],
+            guards: (0..N_GUARDS).map(|_| None).collect(),
+            install_order: vec![],
+            rt_guard: None,
+            objs: vec![],
+            toks: vec![],
+        };
+        let res = catch(|| run_env_ops(&mut cx, 0));
+        let out = match res {
+            Ok(Ok(())) => {
+                // every object again, after all the installs and drops (OnClose: now)
+                let n = cx.objs.len();
+                let ends: Vec<String> = (0..n).map(|i| cx.probe(i)).collect();
+                cx.toks.push(format!("end:{}", if ends.is_empty() { "-".to_string() } else { ends.join(",") }));
+                Some(cx.toks.join(" "))
             }
-        })
+            Ok(Err(())) => None,
+            Err(p) => Some(format!("panic:{p}")),
+        };
+        // leave the thread as clean as the case allows: still-live guards go in reverse install order
+        for g in std::mem::take(&mut cx.install_order).into_iter().rev() {
+            drop(cx.guards[g as usize].take());
+        }
+        out
     })
-    .join();
-    match r {
-        Ok(x) => x,
-        Err(_) => Some("panic:thread".into()),
-    }
+}
+
+/// `env` cases run on a helper thread owned by the calling shard thread: thread-local overrides must
+/// start empty, and a case may leave one behind (guards dropped out of order; a broken guard). The
+/// helper is reused while its thread-local slot is observably empty (`time_source()` outside any
+/// runtime is the system source) and replaced by a fresh thread otherwise.
+struct EnvWorker {
+    tx: std::sync::mpsc::Sender<Vec<EOp>>,
+    rx: std::sync::mpsc::Receiver<(Option<String>, bool)>,
+}
+
+fn spawn_env_worker() -> EnvWorker {
+    let (tx, job_rx) = std::sync::mpsc::channel::<Vec<EOp>>();
+    let (res_tx, rx) = std::sync::mpsc::channel();
+    std::thread::spawn(move || {
+        for ops in job_rx {
+            let out = match catch(|| run_env_case(&ops)) {
+                Ok(o) => o,
+                Err(p) => Some(format!("panic:{p}")),
+            };
+            let clean = matches!(metrique_timesource::time_source(), TimeSource::System);
+            if res_tx.send((out, clean)).is_err() || !clean {
+                break;
+            }
+        }
+    });
+    EnvWorker { tx, rx }
+}
+
+thread_local! {
+    static ENV_WORKER: std::cell::RefCell<Option<EnvWorker>> = const { std::cell::RefCell::new(None) };
+}
+
+fn run_env(ops: &[EOp]) -> Option<String> {
+    ENV_WORKER.with(|w| {
+        let mut w = w.borrow_mut();
+        let worker = w.get_or_insert_with(spawn_env_worker);
+        let answer = worker.tx.send(ops.to_vec()).ok().and_then(|_| worker.rx.recv().ok());
+        match answer {
+            Some((out, clean)) => {
+                if !clean {
+                    *w = None;
+                }
+                out
+            }
+            None => {
+                *w = None;
+                Some("panic:thread".into())
+            }
+        }
+    })
 }
 
 /// LIFO discipline: every guard drop / scope end concerns the innermost active override
@@ -1451,7 +1575,8 @@ fn oracle_sw(ops: &[Op], out: &str) -> Option<String> {
                 ret = Some(now - s);
                 events.push(Ev::Kept(now - s));
             }
-            Op::Db => events.push(Ev::Kept(now - b_start.take()?)),
+            // a guard dropped by unwinding is a dropped guard: its span is completed and kept
+            Op::Db | Op::Ub => events.push(Ev::Kept(now - b_start.take()?)),
             Op::Xb => {
                 b_start.take()?;
                 events.push(Ev::Discarded);
@@ -1465,7 +1590,7 @@ fn oracle_sw(ops: &[Op], out: &str) -> Option<String> {
                 ret = Some(now - s);
                 events.push(Ev::Kept(now - s));
             }
-            Op::Do(k) => events.push(Ev::Kept(now - o_start.remove(&k)?)),
+            Op::Do(k) | Op::Uo(k) | Op::Vo(k) => events.push(Ev::Kept(now - o_start.remove(&k)?)),
             Op::Xo(k) => {
                 o_start.remove(&k)?;
                 events.push(Ev::Discarded);
@@ -1687,11 +1812,16 @@ struct Shape {
 }
 
 impl Shape {
-    fn options(&self, slots: usize, out: &mut Vec<Op>) {
+    /// `unwind`: include the "dropped by a contained unwinding panic" variants (`ub`, `uo<k>`; the
+    /// panicking-thread variant `vo<k>` is substituted for `uo<k>` by the random generators)
+    fn options(&self, slots: usize, unwind: bool, out: &mut Vec<Op>) {
         out.clear();
         out.push(Op::Adv(0));
         if self.borrowed {
             out.extend([Op::Pb, Op::Db, Op::Xb, Op::Wb]);
+            if unwind {
+                out.push(Op::Ub);
+            }
         } else {
             out.push(Op::Sb);
             out.push(Op::C);
@@ -1705,18 +1835,21 @@ impl Shape {
             if self.live[k] {
                 let k = k as u8;
                 out.extend([Op::Po(k), Op::Do(k), Op::Xo(k), Op::Wo(k)]);
+                if unwind {
+                    out.push(Op::Uo(k));
+                }
             }
         }
     }
     fn apply(&mut self, op: Op) {
         match op {
             Op::Sb => self.borrowed = true,
-            Op::Pb | Op::Db | Op::Xb | Op::Wb => self.borrowed = false,
+            Op::Pb | Op::Db | Op::Xb | Op::Wb | Op::Ub => self.borrowed = false,
             Op::So(k) => {
                 self.live[k as usize] = true;
                 self.used = self.used.max(k as usize + 1);
             }
-            Op::Po(k) | Op::Do(k) | Op::Xo(k) | Op::Wo(k) => self.live[k as usize] = false,
+            Op::Po(k) | Op::Do(k) | Op::Xo(k) | Op::Wo(k) | Op::Uo(k) | Op::Vo(k) => self.live[k as usize] = false,
             Op::Adv(_) | Op::C => {}
         }
     }
@@ -1725,19 +1858,19 @@ impl Shape {
 /// every expressible sequence of exactly `len` operations extending `prefix` (observing after every
 /// prefix covers the shorter ones); the advance at position i is by 8^i ns, so every subset (and
 /// multiplicity up to 7) of advances has its own total
-fn enumerate_sw(prefix: &mut Vec<Op>, shape: &Shape, len: usize, slots: usize, f: &mut impl FnMut(&[Op])) {
+fn enumerate_sw(prefix: &mut Vec<Op>, shape: &Shape, len: usize, slots: usize, unwind: bool, f: &mut impl FnMut(&[Op])) {
     if prefix.len() == len {
         f(prefix);
         return;
     }
     let mut opts = vec![];
-    shape.options(slots, &mut opts);
+    shape.options(slots, unwind, &mut opts);
     for op in opts {
         let op = if let Op::Adv(_) = op { Op::Adv(8u64.pow(prefix.len() as u32)) } else { op };
         let mut s = shape.clone();
         s.apply(op);
         prefix.push(op);
-        enumerate_sw(prefix, &s, len, slots, f);
+        enumerate_sw(prefix, &s, len, slots, unwind, f);
         prefix.pop();
     }
 }
@@ -1775,7 +1908,7 @@ fn gen_sw(rng: &mut Rng, len: usize, slots: usize, nasty: bool) -> Vec<Op> {
             ops.push(Op::Adv(gen_advance(rng, nasty)));
             continue;
         }
-        shape.options(slots, &mut opts);
+        shape.options(slots, true, &mut opts);
         let cand: Vec<Op> = opts.iter().copied().filter(|o| !matches!(o, Op::Adv(_))).collect();
         // `clear` is rare, otherwise long sequences hardly accumulate
         let op = loop {
@@ -1784,6 +1917,12 @@ fn gen_sw(rng: &mut Rng, len: usize, slots: usize, nasty: bool) -> Vec<Op> {
                 continue;
             }
             break o;
+        };
+        // a quarter of the owned unwinding drops happen on a thread that panics while owning the guard
+        // (thread creation dominates the cost of the random streams)
+        let op = match op {
+            Op::Uo(k) if rng.chance(1, 4) => Op::Vo(k),
+            o => o,
         };
         // random slot order for owned starts (no canonical-naming restriction in the random stream)
         let op = if let Op::So(_) = op {
@@ -1824,13 +1963,15 @@ fn gen_sw_bursts(rng: &mut Rng, rounds: usize, nasty: bool) -> Vec<Op> {
         for k in &slots {
             ops.push(match rng.below(13) {
                 0..=4 => Op::Po(*k),
-                5..=8 => Op::Do(*k),
+                5..=6 => Op::Do(*k),
+                7 => Op::Uo(*k),
+                8 => Op::Vo(*k),
                 9..=11 => Op::Xo(*k),
                 _ => Op::Wo(*k),
             });
         }
         if borrowed {
-            ops.push(*rng.pick(&[Op::Pb, Op::Db, Op::Xb, Op::Wb]));
+            ops.push(*rng.pick(&[Op::Pb, Op::Db, Op::Xb, Op::Wb, Op::Ub]));
         }
         if rng.chance(1, 4) {
             ops.push(Op::C);
@@ -1892,7 +2033,7 @@ fn gen_ts(rng: &mut Rng, len: usize) -> (i128, Vec<SOp>) {
 fn nontrivial(c: &Case) -> bool {
     match c {
         Case::Sw { ops, .. } => {
-            let ends = ops.iter().filter(|o| matches!(o, Op::Pb | Op::Db | Op::Xb | Op::Wb | Op::Po(_) | Op::Do(_) | Op::Xo(_) | Op::Wo(_))).count();
+            let ends = ops.iter().filter(|o| matches!(o, Op::Pb | Op::Db | Op::Xb | Op::Wb | Op::Ub | Op::Po(_) | Op::Do(_) | Op::Xo(_) | Op::Wo(_) | Op::Uo(_) | Op::Vo(_))).count();
             let special = ops.iter().any(|o| matches!(o, Op::So(_) | Op::Xb | Op::Wb | Op::C));
             let adv = ops.iter().any(|o| matches!(o, Op::Adv(d) if *d > 0));
             ends >= 2 && special && adv
@@ -1913,7 +2054,7 @@ fn nontrivial(c: &Case) -> bool {
 enum Work {
     Batch(Vec<Case>),
     /// every expressible stopwatch sequence of exactly `len` operations extending `prefix`
-    Exhaustive { prefix: Vec<Op>, len: usize, slots: usize },
+    Exhaustive { prefix: Vec<Op>, len: usize, slots: usize, unwind: bool },
 }
 
 fn fnv(s: &str) -> u64 {
@@ -1952,6 +2093,9 @@ fn op_kind(o: &Op) -> &'static str {
         Op::Sb => "sw op:start",
         Op::Pb => "sw op:stop (borrowed)",
         Op::Db => "sw op:drop (borrowed)",
+        Op::Ub => "sw op:drop by unwinding out of catch_unwind (borrowed)",
+        Op::Uo(_) => "sw op:drop by unwinding out of catch_unwind (owned)",
+        Op::Vo(_) => "sw op:drop by a panicking thread (owned)",
         Op::Xb => "sw op:discard (borrowed)",
         Op::Wb => "sw op:overwrite (borrowed)",
         Op::So(_) => "sw op:start_owned",
@@ -1996,7 +2140,7 @@ fn measure(c: &Case, out: &str, sh: &mut Shard) {
                         live += 1;
                         shared = true;
                     }
-                    Op::Po(_) | Op::Do(_) | Op::Xo(_) | Op::Wo(_) => {
+                    Op::Po(_) | Op::Do(_) | Op::Xo(_) | Op::Wo(_) | Op::Uo(_) | Op::Vo(_) => {
                         live -= 1;
                         if borrowed {
                             owned_while_borrowed = true;
@@ -2008,7 +2152,7 @@ fn measure(c: &Case, out: &str, sh: &mut Shard) {
                             excl_guard_after_shared = true;
                         }
                     }
-                    Op::Pb | Op::Db | Op::Xb | Op::Wb => borrowed = false,
+                    Op::Pb | Op::Db | Op::Xb | Op::Wb | Op::Ub => borrowed = false,
                     _ => {}
                 }
                 max_live = max_live.max(live);
@@ -2251,14 +2395,21 @@ fn main() {
         // (1) stopwatch, exhaustive: every expressible sequence of exactly L operations over
         //     {advance, start, stop, drop, discard, overwrite, clear} × {borrowed, owned slots 0..S-1};
         //     one work unit per expressible 3-operation prefix, expanded lazily by the worker
-        let plans: &[(usize, usize)] = if thorough { &[(9, 2), (8, 3)] } else { &[(7, 2), (6, 3)] };
-        for (len, slots) in plans {
-            enumerate_sw(&mut vec![], &Shape::default(), 3, *slots, &mut |prefix| {
-                work.push(Work::Exhaustive { prefix: prefix.to_vec(), len: *len, slots: *slots });
+        //     (length, owned slots, with the "dropped by a contained unwinding panic" variants `ub`/`uo<k>`)
+        //     the two longest plans run in the dev profile only (release: length 7, 3 slots): the release
+        //     profile exists to catch optimisation-dependent behaviour, the thorough budget is shared
+        let plans: &[(usize, usize, bool)] = if thorough {
+            if cfg!(debug_assertions) { &[(9, 2, false), (8, 3, true)] } else { &[(7, 3, true)] }
+        } else {
+            &[(7, 2, true), (6, 3, true)]
+        };
+        for (len, slots, unwind) in plans {
+            enumerate_sw(&mut vec![], &Shape::default(), 3, *slots, *unwind, &mut |prefix| {
+                work.push(Work::Exhaustive { prefix: prefix.to_vec(), len: *len, slots: *slots, unwind: *unwind });
             });
         }
         // (2) stopwatch, random long sequences
-        let n_rand = if thorough { 600_000 } else { 20_000 };
+        let n_rand = if thorough { 300_000 } else { 20_000 };
         let mut cur = vec![];
         for i in 0..n_rand {
             let len = match i % 4 {
@@ -2369,7 +2520,7 @@ fn main() {
                                     run_batch(cases, &driver, &mut sh, false);
                                 }
                             }
-                            Work::Exhaustive { prefix, len, slots } => {
+                            Work::Exhaustive { prefix, len, slots, unwind } => {
                                 let mut shape = Shape::default();
                                 for op in prefix {
                                     shape.apply(*op);
@@ -2377,7 +2528,7 @@ fn main() {
                                 let mut cur: Vec<Case> = vec![];
                                 let mut n = 0u64;
                                 let mut p = prefix.clone();
-                                enumerate_sw(&mut p, &shape, *len, *slots, &mut |ops| {
+                                enumerate_sw(&mut p, &shape, *len, *slots, *unwind, &mut |ops| {
                                     n += 1;
                                     cur.push(Case::Sw { mode: Mode::Seq, ops: ops.to_vec() });
                                     if cur.len() >= 10_000 {
@@ -2388,7 +2539,7 @@ fn main() {
                                 if !cur.is_empty() {
                                     run_batch(&cur, &driver, &mut sh, true);
                                 }
-                                sh.bump(&format!("sw exhaustive: expressible sequences of length {len} with {slots} owned slots"), n);
+                                sh.bump(&format!("sw exhaustive: expressible sequences of length {len} with {slots} owned slots{}", if *unwind { ", unwinding drops included" } else { "" }), n);
                                 sh.exhaustive_sequences += n;
                             }
                         }
